@@ -321,6 +321,20 @@ def handle (ws : List String) : String :=
       | some body => if d > 1 then "bad-op" else runE2e body st (d == 1) s
       | none => "bad-op"
     | _, _, _ => "bad-op"
+  | ["e2ed", st, d, s, t] =>
+    -- like e2e, but the application has dropped its command sender (as when the session runs under
+    -- `Session::process()`), and `tick()` is called twice more after the run has ended.  A closed
+    -- command channel only disables the command arm of `select!`; once the connection is gone the frame
+    -- arm is disabled too and `tick()` waits on the timer arms: it neither returns nor panics (`pend`).
+    match st.toNat? >>= stOfNat, d.toNat?, bytesOfHex s with
+    | some st, some d, some s =>
+      match bodyOfArg t s with
+      | some body =>
+        if d > 1 then "bad-op" else
+        let r := runE2e body st (d == 1) s
+        if r == "panic" then r else r ++ " after=pend,pend"
+      | none => "bad-op"
+    | _, _, _ => "bad-op"
   | _ => "bad-op"
 
 end Rc.Drv.C09
